@@ -149,6 +149,52 @@ func wellFormedEntryOpts() progOpts {
 	return progOpts{maxDepth: 3, maxItems: 5, includes: true, defs: true, cmdline: true, exotic: 0.3, malformed: 0, flagsPfxSf: true}
 }
 
+// genGroupingCorner: small programs around the places where an alternation must be grouped before something is put
+// next to it (prefix, suffix, a following segment, a stored expression): entries that end in an escaped backslash or
+// contain escaped pipes, escaped parentheses, pipes inside classes — whatever a textual "does this need a group?"
+// test could get wrong.
+func genGroupingCorner(r *rand.Rand) *Program {
+	p := &Program{Kinds: map[string]int{"grouping-corner": 1}}
+	corner := []string{"a\\x5c", "b\\\\", "c", "d\\|e", "f|g", "(?:h|i)j", "k\\(", "\\)l", "m[|]", "n\\x7c", "o\\x5c\\x5c", "p\\\\\\|q", "(r)", "s\\x5c|t"}
+	var lines []string
+	if chance(r, 0.2) {
+		lines = append(lines, "##!+ "+pick(r, []string{"s", "i"}))
+	}
+	if chance(r, 0.7) {
+		lines = append(lines, "##!^ "+pick(r, []string{"x", "\\b", "x\\x5c", "(?:x|y)"}))
+	}
+	if chance(r, 0.5) {
+		lines = append(lines, "##!$ "+pick(r, []string{"z", "\\b", "[0-9]"}))
+	}
+	entries := func(k int) []string {
+		var es []string
+		for i := 0; i < k; i++ {
+			es = append(es, pick(r, corner))
+		}
+		return es
+	}
+	switch r.Intn(4) {
+	case 0:
+		lines = append(lines, entries(2+r.Intn(2))...)
+	case 1:
+		lines = append(lines, entries(2)...)
+		lines = append(lines, "##!=>")
+		lines = append(lines, entries(1+r.Intn(2))...)
+	case 2:
+		lines = append(lines, "##!> assemble")
+		lines = append(lines, entries(2)...)
+		lines = append(lines, "##!<", pick(r, corner))
+	default:
+		lines = append(lines, entries(2)...)
+		lines = append(lines, "##!=< st1", "w", "##!=> st1")
+	}
+	p.Input = strings.Join(lines, "\n") + "\n"
+	for range [6]int{} {
+		p.Cfg = append(p.Cfg, []byte{})
+	}
+	return p
+}
+
 func genC01(r *rand.Rand, tier string, env *Env) []Case {
 	n := 250
 	if tier == "thorough" {
@@ -161,6 +207,9 @@ func genC01(r *rand.Rand, tier string, env *Env) []Case {
 			o.maxDepth = 4
 		}
 		p := genProgram(r, o)
+		if i%8 == 3 {
+			p = genGroupingCorner(r)
+		}
 		cases = append(cases, Case{Kind: "program", Ops: []Op{p.parseOp(), p.genOp()}, Oracles: []Op{{"c01.language", p.genOp().Args}}})
 	}
 	return cases
